@@ -11,6 +11,7 @@ import Mathlib.Algebra.Order.Field.Basic
 import Mathlib.Algebra.Order.Ring.Abs
 import Mathlib.Algebra.Order.Ring.Cast
 import Mathlib.Tactic.Ring
+import Mathlib.Tactic.LinearCombination
 import Mathlib.Tactic.Linarith
 import Mathlib.Tactic.Positivity
 import Mathlib.Tactic.NormNum
@@ -159,7 +160,7 @@ theorem merge_sound (env : Nat → K) (d : Nat) : ∀ xs ys : Terms, KeysLe d xs
           refine ⟨?_, ?_⟩
           · have hc' : (x.2 : K) + (y.2 : K) = 0 := by exact_mod_cast congrArg (Int.cast (R := K)) hc
             simp only [evalTerms_append, evalTerms, hev, ih1, hk]
-            linear_combination (mono env x.1) * hc'
+            linear_combination (-(mono env x.1)) * hc'
           · intro z hz
             rcases List.mem_append.1 hz with h | h
             · exact hy1 z h
